@@ -63,7 +63,8 @@ struct out
 };
 
 static_assert(sizeof(long) == 8, "LP64 assumed by the stimer model");
-static_assert(std::is_same<igris::timer_spec<int64_t>::difftime_t, int64_t>::value, "difftime_t is int64_t");
+// (round 3b: no static_assert on library types - widths / signedness of time_t and difftime_t of every instance are
+// reported by the op `consts` and compared with the model at run time: a change shows as a VIOLATION, not as a build error)
 
 // ---------------------------------------------------------------------------
 // scripted callbacks
@@ -202,10 +203,11 @@ struct iface
 
 template <class Spec> struct impl : iface
 {
-    using T = typename Spec::time_t;
-    using D = typename Spec::difftime_t;
     using mgr_t = igris::timer_manager_basic<Spec>;
     using tim_t = igris::timer_basic<Spec, int>;
+    // the tick type and the difference type as the public member functions show them (not the nested typedef names)
+    using T = decltype(std::declval<tim_t &>().finish());
+    using D = decltype(std::declval<mgr_t &>().minimal_interval(std::declval<T>()));
     mgr_t *mgr = nullptr;
     std::vector<tim_t *> tim;
     int unarmed = -1;
@@ -267,9 +269,6 @@ typedef igris::timer_spec<uint32_t> spec_u32;
 typedef igris::timer_spec<int32_t> spec_i32;
 typedef igris::timer_spec<int64_t> spec_i64;
 typedef igris::timer_spec<uint32_t, int32_t> spec_u32s; // unsigned ticks with an explicitly SIGNED difference type
-static_assert(std::is_same<spec_i32::difftime_t, int32_t>::value, "difftime_t of the int32_t instance is int32_t");
-static_assert(std::is_same<spec_u32::difftime_t, uint32_t>::value, "difftime_t of the unsigned instance is uint32_t");
-static_assert(std::is_same<igris::timer_manager, igris::timer_manager_basic<igris::timer_spec<int64_t>>>::value, "");
 
 // ---------------------------------------------------------------------------
 // the case under test
@@ -308,6 +307,18 @@ struct world
     out *o = nullptr;
     bool in_exec = false;
     bool fires_seen = false; // an exec has happened in this case
+    // ---- what the property leaves open: the order among timers with EQUAL deadlines (see tie_step) ----
+    bool tainted = false; // the outcome of this case depends on the order inside a tie: result = "tie-dependent" until the next reset
+    bool tdirty = false;  // a setter op hit a planned timer / an exec used setters in callbacks: the list may be unsorted
+    bool hz = false;      // reset U|I|V (32-bit instances, histories outside the window): "deadline order" may be undefined
+    struct tiegrp
+    {
+        bool open = false;
+        i64 d = 0;
+        std::set<int> G, fired;
+        int k0 = 0;
+        bool all1 = true, all2 = true;
+    } tg;
 };
 static world W;
 static void ofail(const std::string &why)
@@ -338,6 +349,126 @@ static void ref_unarmed(i64 bound, bool inclusive)
     }
 }
 
+// ---------------------------------------------------------------------------
+// The property orders callbacks by deadline and says nothing about timers with EQUAL deadlines.  The result line
+// prints every maximal run of callbacks with one deadline sorted by timer id (canon_fires), and tie_step decides -
+// with the same rules as the model driver (lean/IgrisModel/C16/Tie.lean) - whether the OUTCOME of this exec may
+// depend on the order inside a tie (the callbacks act on timers of the tie, or act differently depending on which
+// member runs at which index).  Such a case is compared by the oracle only from there on: the reference scheduler
+// follows the order it observes.  Only the public API is used (is_planned(), finish()).
+// ---------------------------------------------------------------------------
+static bool act_eq(const act &a, const act &b) { return a.kind == b.kind && a.j == b.j && a.s == b.s && a.iv == b.iv; }
+static bool acts_eq(const std::vector<act> &a, const std::vector<act> &b)
+{
+    if (a.size() != b.size()) return false;
+    for (size_t i = 0; i < a.size(); i++)
+        if (!act_eq(a[i], b[i])) return false;
+    return true;
+}
+static std::vector<act> acts_for(int id, int k)
+{
+    std::vector<act> v;
+    if (id == W.unarmed) return v;
+    for (auto &r : W.rules)
+    {
+        if ((r.id != -1 && r.id != id) || (r.k != -1 && r.k != k)) continue;
+        for (auto &a : r.acts) v.push_back(a);
+    }
+    return v;
+}
+static bool any_tie()
+{
+    iface &t = *W.t;
+    std::set<i64> seen;
+    for (size_t i = 0; i < t.n(); i++)
+        if (t.is_planned((int)i) && !seen.insert(t.finish((int)i)).second) return true;
+    return false;
+}
+// histories outside the window precondition: the comparison of deadlines by the sign of their difference is a strict
+// total order on distinct deadlines only while the pending deadlines lie within half the counter range of each other.
+// When it is not (two deadlines exactly 2^31 apart, or a cycle) where plan() inserts depends on how its scan is written.
+static bool order_bad()
+{
+    iface &t = *W.t;
+    std::vector<uint32_t> ds;
+    for (size_t i = 0; i < t.n(); i++)
+        if (t.is_planned((int)i)) ds.push_back((uint32_t)t.finish((int)i));
+    auto e = [](uint32_t a, uint32_t b) { return (int32_t)(uint32_t)(a - b) < 0; };
+    for (uint32_t a : ds)
+        for (uint32_t b : ds)
+        {
+            if (a != b && e(a, b) == e(b, a)) return true;
+            for (uint32_t c : ds)
+                if (e(a, b) && e(b, c) && !e(a, c)) return true;
+        }
+    return false;
+}
+static bool unordered_state() { return (W.tdirty && any_tie()) || (W.hz && order_bad()); }
+static void tie_step(int id, i64 raw, i64 d, int myk, i64 now)
+{
+    world &w = W;
+    iface &t = *w.t;
+    auto &g = w.tg;
+    if (w.tainted) return;
+    if (unordered_state()) { w.tainted = true; return; }
+    if (g.open && raw != g.d) { w.tainted = true; return; } // a timer with another deadline runs before every member of the tie has run
+    std::set<int> S;
+    for (size_t i = 0; i < t.n(); i++)
+        if (t.is_planned((int)i) && t.finish((int)i) == raw) S.insert((int)i);
+    S.insert(id);
+    // the timer with the unarmed delegate runs unseen: it belongs to the tie when the reference has it at this deadline
+    if (w.unarmed >= 0 && w.ref.pending(w.unarmed) && w.ref.pend[w.unarmed].first == d) S.insert(w.unarmed);
+    // outside the window a tie is never harmless: the states INSIDE the group differ with the order, and with them
+    // whether the deadlines are still ordered
+    if (w.hz && S.size() >= 2) { w.tainted = true; return; }
+    if (g.open) g.G.insert(S.begin(), S.end());
+    else if (S.size() >= 2)
+    {
+        g = world::tiegrp();
+        g.open = true;
+        g.d = raw;
+        g.G = S;
+        g.k0 = myk;
+    }
+    if (!g.open) return;
+    if (w.unarmed >= 0 && g.G.count(w.unarmed)) g.fired.insert(w.unarmed);
+    bool p1 = true, p2 = true;
+    std::vector<act> first = acts_for(*g.G.begin(), myk);
+    for (int m : g.G)
+    {
+        std::vector<act> L = acts_for(m, myk);
+        if (!acts_eq(L, first)) p1 = false;
+        if (!acts_eq(L, acts_for(m, g.k0))) p2 = false;
+        for (auto &a : L)
+        {
+            if (a.kind != 'x' && g.G.count(a.j)) p1 = false;
+            bool safe = a.kind == 'x' || (a.kind == 'u' && a.j == m) || (a.kind == 'p' && a.j == m && a.s + a.iv > now);
+            if (!safe) p2 = false;
+        }
+    }
+    g.all1 = g.all1 && p1;
+    g.all2 = g.all2 && p2;
+    g.fired.insert(id);
+    if (!g.all1 && !g.all2) { w.tainted = true; return; }
+    if (g.fired == g.G)
+    {
+        g.open = false;
+        w.o->tag("tie-group-order-free"); // every order inside this tie gives the same outcome: compared with the model
+        if (!first.empty() || !g.all1) w.o->tag("tie-group-with-callback-actions");
+    }
+}
+static void canon_fires(std::vector<std::pair<int, i64>> &f)
+{
+    size_t b = 0;
+    while (b < f.size())
+    {
+        size_t e = b + 1;
+        while (e < f.size() && f[e].second == f[b].second) e++;
+        if (e - b > 1) std::sort(f.begin() + b, f.begin() + e, [](const std::pair<int, i64> &x, const std::pair<int, i64> &y) { return x.first < y.first; });
+        b = e;
+    }
+}
+
 static void on_fire(int id)
 {
     world &w = W;
@@ -350,6 +481,7 @@ static void on_fire(int id)
     i64 d = t.virt(raw, c.now);
     ref_unarmed(d, false);
     if (w.fires.size() < 100000) w.fires.push_back({id, raw});
+    if (w.stack.size() == 1) tie_step(id, raw, d, myk, c.now);
     // ---- oracle, on the real callback ----
     if (syslock_counter() != 0) ofail("callback runs with the system lock held");
     if (!t.is_planned(id)) ofail("callback of a timer that is not planned");
@@ -484,6 +616,10 @@ static void drop_world()
     W.oracle_on = true;
     W.unarmed = -1;
     W.dirty = false;
+    W.tainted = false;
+    W.tdirty = false;
+    W.hz = false;
+    W.tg = world::tiegrp();
     W.last_fire.clear();
     W.anch.clear();
     W.stack.clear();
@@ -793,7 +929,7 @@ static premain_t PREMAIN __attribute__((init_priority(101)));
 template <class X> static std::string tyname() { return std::to_string(sizeof(X)) + (std::is_signed<X>::value ? "s" : "u"); }
 template <class Spec> static std::string mgr_types()
 {
-    using head = igris::timer_head_basic<Spec>;
+    using head = igris::timer_basic<Spec, int>;
     using mgr = igris::timer_manager_basic<Spec>;
     using T = decltype(std::declval<head &>().finish());
     using D = decltype(std::declval<mgr &>().minimal_interval(std::declval<T>()));
@@ -810,12 +946,45 @@ static std::string consts_line()
     s += " i32[" + mgr_types<spec_i32>() + "]";
     s += " u32[" + mgr_types<spec_u32>() + "]";
     s += " u32s[" + mgr_types<spec_u32s>() + "]";
-    s += " default=" + std::string(std::is_same<igris::timer_manager, igris::timer_manager_basic<igris::timer_spec<int64_t>>>::value ? "int64" : "other");
-    s += " delegate=" + std::to_string(sizeof(igris::delegate<void, int>));
+    s += " default=" + std::string(std::is_same<decltype(std::declval<igris::timer<int> &>().finish()), int64_t>::value ? "int64" : "other");
     return s;
 }
 
-static void run_op(const std::vector<std::string> &w, const std::string &, hv::out &o_)
+static const std::set<std::string> mgr_ops = {"plan", "plan1", "unplan", "sets", "seti", "replan", "destroy", "dropmgr", "qmin", "q", "exec"};
+static void run_op_inner(const std::vector<std::string> &w, const std::string &, hv::out &o_);
+static void run_op(const std::vector<std::string> &w, const std::string &line, hv::out &o_)
+{
+    const std::string &op = w[0];
+    bool mgr = mgr_ops.count(op) && W.t && !D_MODE;
+    bool tie_before = false, ord_before = false;
+    if (mgr)
+    {
+        tie_before = any_tie();
+        ord_before = W.hz && order_bad();
+        if ((op == "sets" || op == "seti") && w.size() > 1)
+        {
+            int i = atoi(w[1].c_str());
+            if (i >= 0 && i < (int)W.t->n() && W.t->is_planned(i)) W.tdirty = true;
+        }
+        if (op == "exec" && w.size() > 2)
+            for (auto &r : parse_rules(w[2]))
+                for (auto &a : r.acts)
+                    if (a.kind == 's' || a.kind == 'i') W.tdirty = true;
+    }
+    run_op_inner(w, line, o_);
+    if (mgr && W.t)
+    {
+        if ((W.tdirty && (tie_before || any_tie())) || (W.hz && (ord_before || order_bad()))) W.tainted = true;
+        if (W.tainted)
+        {
+            // the order among equal deadlines (left open by the property) decides what happens from here on:
+            // nothing is compared with the model until the next reset; the oracle keeps judging every op
+            o_.result = "tie-dependent";
+            out(o_).tag("tie-order-dependent");
+        }
+    }
+}
+static void run_op_inner(const std::vector<std::string> &w, const std::string &, hv::out &o_)
 {
     out o(o_);
     world &W_ = W;
@@ -840,17 +1009,20 @@ static void run_op(const std::vector<std::string> &w, const std::string &, hv::o
         {
             W_.t = new impl<spec_u32>(atoi(w[2].c_str()), -1);
             W_.oracle_on = w[1] == "u";
+            W_.hz = w[1] == "U";
         }
         else if (w[1] == "i" || w[1] == "I")
         {
             // timer_spec<int32_t>: a signed 32-bit tick counter (wraps after 2^31 ticks)
             W_.t = new impl<spec_i32>(atoi(w[2].c_str()), -1);
             W_.oracle_on = w[1] == "i";
+            W_.hz = w[1] == "I";
         }
         else if (w[1] == "v" || w[1] == "V")
         {
             W_.t = new impl<spec_u32s>(atoi(w[2].c_str()), -1);
             W_.oracle_on = w[1] == "v";
+            W_.hz = w[1] == "V";
         }
         else if (w[1] == "l")
         {
@@ -870,7 +1042,14 @@ static void run_op(const std::vector<std::string> &w, const std::string &, hv::o
     }
     W_.o = &o;
     if (D_MODE) { d_op(w, o); return; }
-    if (op == "consts") { o.result = consts_line(); o.tag("consts"); return; }
+    if (op == "consts")
+    {
+        o.result = consts_line();
+        o.tag("consts");
+        // sizeof(delegate) is not fixed by the property (padding, an extra member): reported as a tag, not compared
+        o.tag(("sizeof-delegate-" + std::to_string(sizeof(igris::delegate<void, int>))).c_str());
+        return;
+    }
     if (op == "premain")
     {
         o.result = std::string(PM_BUF, PM_LEN);
@@ -878,7 +1057,6 @@ static void run_op(const std::vector<std::string> &w, const std::string &, hv::o
         o.tag("before-main");
         return;
     }
-    static const std::set<std::string> mgr_ops = {"plan", "plan1", "unplan", "sets", "seti", "replan", "destroy", "dropmgr", "qmin", "q", "exec"};
     if (mgr_ops.count(op) && !W_.t)
     {
         o.result = "bad-op";
@@ -1017,12 +1195,15 @@ static void run_op(const std::vector<std::string> &w, const std::string &, hv::o
             for (auto &p : before)
                 if (T.raw_time(p.second.first) < T.raw_time(p.second.first - p.second.second)) { o.tag("deadline-beyond-wrap"); break; }
         }
+        W_.tg = world::tiegrp();
         W_.in_exec = true;
         T.exec(now);
         W_.in_exec = false;
         W_.stack.clear();
         ref_unarmed(now, true);
         std::string f;
+        // (the oracle below reads W_.fires per timer only: sorting inside runs of one deadline does not change what it sees)
+        canon_fires(W_.fires);
         for (auto &x : W_.fires)
         {
             if (!f.empty()) f += ",";
@@ -1257,1072 +1438,12 @@ static void run_op(const std::vector<std::string> &w, const std::string &, hv::o
     o.fail("unknown op");
 }
 
-// ---------------------------------------------------------------------------
-// generator
-// ---------------------------------------------------------------------------
-static void emit(const std::string &s) { puts(s.c_str()); }
-static std::string S(i64 v) { return std::to_string(v); }
-
-// the directed cases every run starts with
-static void gen_directed()
-{
-    // widths / signedness / constants of the compiled code against what the model embeds
-    emit("reset C");
-    emit("consts");
-    emit("premain");
-    // the library's own scenario shape: two periodic timers, one stops itself
-    emit("reset 2");
-    emit("plan 0 0 1000");
-    emit("plan 1 0 2000");
-    emit("exec 1001 -");
-    emit("exec 2001 -");
-    emit("exec 3001 -");
-    emit("unplan 0");
-    emit("exec 4001 1@*:u1");
-    emit("plan1 0 6001 1000");
-    emit("exec 8001 -");
-    // equal deadlines, FIFO among ties, catch-up across many periods
-    emit("reset 3");
-    emit("plan 0 0 3");
-    emit("plan 1 0 3");
-    emit("plan 2 1 2");
-    emit("exec 10 -");
-    emit("exec 12 0@*:p0.12.5");      // a callback re-plans itself
-    emit("exec 13 1@*:u1;2@*:u2");    // callbacks unplan themselves
-    emit("exec 40 0@0:u0,p0.40.1");
-    // callbacks acting on other timers
-    emit("reset 4");
-    emit("plan 0 0 2");
-    emit("plan 1 0 4");
-    emit("plan 2 0 4");
-    emit("plan 3 5 5");
-    emit("exec 4 0@0:u1;2@*:p1.4.1,p3.0.1");
-    emit("exec 4 -");
-    emit("exec 11 *@2:p0.3.2");       // re-plan into the past from the third callback
-    emit("q 20");
-    // unplanned timers never fire, empty manager
-    emit("reset 2");
-    emit("exec 100 -");
-    emit("plan 0 5 5");
-    emit("unplan 0");
-    emit("unplan 0");
-    emit("exec 100 -");
-    emit("plan 1 1000000000000 7");
-    emit("exec 1000000000006 -");
-    emit("exec 1000000000007 -");
-    emit("exec 1000000000700 1@99:u1");
-    emit("qmin 1000000000700");
-    // recorded finding: minimal_interval() on an empty manager (each probe ends its case: ASan abort)
-    emit("reset 1");
-    emit("@F:C16-minimal-interval-empty qmin 5");
-    emit("reset 2");
-    emit("plan 0 1 1");
-    emit("unplan 0");
-    emit("@F:C16-minimal-interval-empty qmin 0");
-}
-
-static std::string gen_rules(hv::rng &r, int n, i64 now, const std::vector<i64> &ivs)
-{
-    if (r.chance(45)) return "-";
-    std::string s;
-    int nr = (int)r.range(1, 3);
-    for (int q = 0; q < nr; q++)
-    {
-        bool anyk = r.chance(55);
-        std::string sel = (r.chance(25) ? std::string("*") : S(r.below(n))) + "@" + (anyk ? std::string("*") : S(r.below(4)));
-        std::string acts;
-        int na = (int)r.range(1, 2);
-        for (int a = 0; a < na; a++)
-        {
-            if (!acts.empty()) acts += ",";
-            int j = (int)r.below(n);
-            if (r.chance(35)) acts += "u" + S(j);
-            else
-            {
-                i64 iv = r.pick(ivs);
-                i64 st;
-                if (!anyk && r.chance(40)) st = now - iv - (i64)r.below(7); // into the past: only from a single callback
-                else st = now - iv + 1 + (i64)r.below(6);                    // deadline strictly after now
-                acts += "p" + S(j) + "." + S(st) + "." + S(iv);
-            }
-        }
-        if (!s.empty()) s += ";";
-        s += sel + ":" + acts;
-    }
-    return s;
-}
-
-static void gen_random_case(hv::rng &r, bool big)
-{
-    int n = (int)r.range(1, 6);
-    emit("reset " + S(n));
-    static const std::vector<i64> bases = {0, 0, 0, 1000000000000LL, -1000, 4611686018427387LL};
-    i64 base = big ? r.pick(bases) : 0;
-    std::vector<i64> ivs = {1, 1, 2, 2, 3, 5, 7, 10, 100};
-    std::vector<i64> steps = {0, 0, 1, 1, 2, 2, 3, 7, 7, 50, 1000};
-    if (!big) { ivs = {1, 2, 3, 5}; steps = {0, 1, 2, 7}; }
-    i64 now = base;
-    std::vector<i64> lastfin(n, base);
-    int len = (int)r.range(4, 28);
-    for (int q = 0; q < len; q++)
-    {
-        unsigned c = (unsigned)r.below(100);
-        if (c < 38 || q < 2)
-        {
-            int i = (int)r.below(n);
-            i64 iv = r.pick(ivs);
-            i64 st;
-            unsigned m = (unsigned)r.below(100);
-            if (m < 40) st = now + r.range(-3, 3);
-            else if (m < 65) st = lastfin[r.below(n)] - iv; // same deadline as another timer
-            else if (m < 80) st = now;
-            else st = now - (i64)r.below(40);
-            lastfin[i] = st + iv;
-            emit(std::string(r.chance(12) ? "plan1 " : "plan ") + S(i) + " " + S(st) + " " + S(iv));
-        }
-        else if (c < 50) emit("unplan " + S(r.below(n)));
-        else if (c < 94)
-        {
-            now += r.pick(steps);
-            emit("exec " + S(now) + " " + gen_rules(r, n, now, ivs));
-        }
-        else emit("q " + S(now + r.range(0, 3)));
-    }
-}
-
-// 3 timers, starts/intervals from {1,2,3,5} (or unplanned), steps from {0,1,2,7}
-static void gen_exhaustive_configs(hv::rng &r, bool thorough)
-{
-    static const i64 V[4] = {1, 2, 3, 5};
-    static const i64 ST[4] = {0, 1, 2, 7};
-    for (int c0 = 0; c0 < 17; c0++)
-        for (int c1 = 0; c1 < 17; c1++)
-            for (int c2 = 0; c2 < 17; c2++)
-            {
-                int cs[3] = {c0, c1, c2};
-                int nseq = thorough ? 16 : 1;
-                for (int sq = 0; sq < nseq; sq++)
-                {
-                    emit("reset 3");
-                    for (int i = 0; i < 3; i++)
-                        if (cs[i] < 16) emit("plan " + S(i) + " " + S(V[cs[i] / 4]) + " " + S(V[cs[i] % 4]));
-                    i64 now = 0;
-                    int a = thorough ? sq / 4 : (int)r.below(4), b = thorough ? sq % 4 : (int)r.below(4);
-                    // first exec somewhere in 1..8 so that some timers are due and some not
-                    now = 1 + ST[a];
-                    emit("exec " + S(now) + " -");
-                    now += ST[b];
-                    emit("exec " + S(now) + " -");
-                    now += ST[(a + b + sq) % 4] + (thorough ? 0 : (i64)r.below(2) * 7);
-                    emit("exec " + S(now) + " -");
-                }
-            }
-}
-
-// every pair of callback scripts for timers 0 and 1 over small configurations
-static void gen_exhaustive_callbacks(hv::rng &r, bool thorough)
-{
-    static const i64 V[3] = {1, 2, 3};
-    static const i64 NOWS[3] = {2, 3, 7};
-    int nv = thorough ? 3 : 2;
-    for (int c = 0; c < nv * nv * nv * nv; c++)
-    {
-        i64 s0 = V[c % nv], i0 = V[c / nv % nv], s1 = V[c / nv / nv % nv], i1 = V[c / nv / nv / nv % nv];
-        for (int ni = 0; ni < 3; ni++)
-        {
-            i64 now = NOWS[ni];
-            // scripts for the callback of timer x acting on itself / on y / on timer 2 at time t
-            auto scripts = [&](int x, int y, i64 t) {
-                std::vector<std::string> v;
-                std::string X = S(x), Y = S(y);
-                v.push_back("");
-                v.push_back(X + "@*:u" + X);
-                v.push_back(X + "@*:u" + Y);
-                v.push_back(X + "@*:p" + X + "." + S(t) + ".1");
-                v.push_back(X + "@*:p" + X + "." + S(t - 1) + ".3");
-                v.push_back(X + "@*:p" + Y + "." + S(t) + ".2");
-                v.push_back(X + "@*:p2." + S(t - 1) + ".2");
-                v.push_back(X + "@*:u" + X + ",p" + X + "." + S(t) + ".2");
-                v.push_back(X + "@*:p" + X + "." + S(t) + ".2,u" + X);
-                v.push_back("*@1:p" + X + "." + S(t - 2) + ".1"); // second callback re-plans x into the past
-                v.push_back("*@0:p" + Y + ".0.1");                  // first callback plans y far into the past
-                v.push_back(X + "@0:p" + X + "." + S(s0) + "." + S(i0)); // re-plan with (possibly) identical values
-                return v;
-            };
-            auto join = [](const std::string &a, const std::string &b) {
-                std::string rs = a;
-                if (!b.empty()) rs += (rs.empty() ? "" : ";") + b;
-                return rs.empty() ? std::string("-") : rs;
-            };
-            auto A = scripts(0, 1, now), B = scripts(1, 0, now);
-            auto A2 = scripts(0, 1, now + 7), B2 = scripts(1, 0, now + 7);
-            for (size_t a = 0; a < A.size(); a++)
-                for (size_t b = 0; b < B.size(); b++)
-                {
-                    if (!thorough && !r.chance(50)) continue;
-                    emit("reset 3");
-                    emit("plan 0 " + S(s0) + " " + S(i0));
-                    emit("plan 1 " + S(s1) + " " + S(i1));
-                    emit("plan 2 1 5");
-                    emit("exec " + S(now) + " " + join(A[a], B[b]));
-                    emit("exec " + S(now + 1) + " -");
-                    emit("exec " + S(now + 7) + " " + join(A2[a], B2[b]));
-                }
-        }
-    }
-}
-
-static void gen_stimer(hv::rng &r, int cases)
-{
-    static const std::vector<i64> vals = {0, 1, 2, 3, 5, 7, 10, 100, -1, -5, 1000000000000LL, -1000000000000LL, 4611686018427387LL};
-    for (int c = 0; c < cases; c++)
-    {
-        emit("reset s");
-        i64 now = r.pick(vals);
-        i64 st = 0, ivl = 0; // what the generator believes the timer holds (only to aim at the boundary)
-        int len = (int)r.range(4, 14);
-        for (int q = 0; q < len; q++)
-        {
-            unsigned m = (unsigned)r.below(100);
-            i64 iv = r.pick(vals);
-            if (iv <= 0) iv = 1 + (i64)r.below(9);
-            if (m < 15) { st = now + r.range(-3, 3); ivl = iv; emit("splan " + S(st) + " " + S(iv)); }
-            else if (m < 22) { st = now + r.range(-3, 3); ivl = iv; emit("sinit " + S(st) + " " + S(iv)); }
-            else if (m < 30) { st = now + r.range(-3, 3); emit("sstart " + S(st)); }
-            else if (m < 36) { st += ivl; emit("sswift"); }
-            else if (m < 44) emit("sfinish");
-            else
-            {
-                // half of the polls aim at deadline-1 / deadline / deadline+1 (time stays non-decreasing)
-                i64 t = now + r.range(0, 4) * (r.chance(20) ? 5 : 1);
-                if (r.chance(50) && st + ivl + 1 >= now) t = std::max(now, st + ivl + r.range(-1, 1));
-                now = t;
-                if (m < 70) emit("scheck " + S(now));
-                else { emit("speriodic " + S(now)); if (now >= st + ivl) st += ivl; }
-            }
-        }
-    }
-}
-
-// ---------------------------------------------------------------------------
-// extensions: the unsigned 32-bit manager across the wrap, setters / plan(tim) / destruction /
-// nested exec, unarmed delegate, stimer across LONG_MAX
-// ---------------------------------------------------------------------------
-static const i64 P32 = 4294967296LL, P31 = 2147483648LL, P30 = 1073741824LL;
-
-static void gen_wrap_directed()
-{
-    // a deadline before the wrap and one after it: the one before must run first and on time
-    emit("reset u 3");
-    emit("plan 0 4294967264 16");   // deadline 2^32 - 16
-    emit("plan 1 4294967264 37");   // deadline 2^32 + 5
-    emit("exec 4294967272 -");
-    emit("exec 4294967282 -");
-    emit("exec 4294967295 -");
-    emit("exec 4294967296 -");
-    emit("exec 4294967301 -");
-    emit("exec 4294967340 -");
-    // periodic timers running through the wrap with a long gap, ties exactly at 2^32
-    emit("reset u 3");
-    emit("plan 0 4294967196 100");  // deadline 2^32
-    emit("plan 1 4294967286 10");   // deadline 2^32
-    emit("plan 2 4294967290 3");
-    emit("exec 4294967294 -");
-    emit("exec 4294967296 -");
-    emit("exec 4294967297 2@*:p2.4294967297.7");
-    emit("exec 4294967500 0@0:u1");
-    emit("q 4294967500");
-    // second and third wrap, planning from a callback across the wrap
-    emit("reset u 2");
-    emit("plan 0 8589934580 5");
-    emit("exec 8589934590 0@1:p1.8589934589.9");
-    emit("exec 8589934600 -");
-    emit("reset u 2");
-    emit("plan 0 12884901870 5");
-    emit("exec 12884901879 -");
-    emit("plan 1 12884901880 1000");
-    emit("exec 12884901888 -");
-    emit("exec 12884902900 -");
-    // half-range boundary of the signed difference: deadlines 2^30 + 2^30 - 2 apart are still ordered
-    emit("reset u 2");
-    emit("plan 0 1073741824 1073741823");
-    emit("plan 1 1073741823 1073741820");
-    emit("exec 1073741825 -");
-    emit("exec 2147483643 -");
-    emit("exec 2147483646 -");
-    emit("exec 2147483647 -");
-    emit("exec 2147483648 -");
-}
-
-static std::string gen_rules_wrap(hv::rng &r, int n, i64 now, const std::vector<i64> &ivs)
-{
-    if (r.chance(50)) return "-";
-    std::string s;
-    int nr = (int)r.range(1, 2);
-    for (int q = 0; q < nr; q++)
-    {
-        bool anyk = r.chance(55);
-        std::string sel = (r.chance(25) ? std::string("*") : S(r.below(n))) + "@" + (anyk ? std::string("*") : S(r.below(4)));
-        std::string acts;
-        int na = (int)r.range(1, 2);
-        for (int a = 0; a < na; a++)
-        {
-            if (!acts.empty()) acts += ",";
-            int j = (int)r.below(n);
-            if (r.chance(35)) acts += "u" + S(j);
-            else
-            {
-                i64 iv = r.pick(ivs);
-                i64 st;
-                if (!anyk && r.chance(40)) st = now - iv - (i64)r.below(7); // deadline in [now-6, now]: only from a single callback
-                else st = now - (i64)r.below(std::min<i64>(iv, 6));          // start <= now, deadline after now
-                acts += "p" + S(j) + "." + S(st) + "." + S(iv);
-            }
-        }
-        if (!s.empty()) s += ";";
-        s += sel + ":" + acts;
-    }
-    return s;
-}
-
-// histories that respect the window precondition: starts <= the clock, every deadline >= the time of the
-// previous exec, (gap between execs) + (interval) < 2^31
-static void gen_wrap_case_m(hv::rng &r, const std::string &mode, const std::string &suffix, const std::vector<i64> &bases);
-static void gen_wrap_case(hv::rng &r)
-{
-    static const std::vector<i64> bases = {P32 - 40, P32 - 40, P32 - 1000, 3 * P32 - 25, P31 - 30, P32 - P30, 2 * P32 - P30 - 500, 0};
-    gen_wrap_case_m(r, "u", "", bases);
-}
-static void gen_wrap_case_m(hv::rng &r, const std::string &mode, const std::string &suffix, const std::vector<i64> &bases)
-{
-    int n = (int)r.range(1, 5);
-    emit("reset " + mode + " " + S(n) + suffix);
-    // a case has either small intervals and small steps, or large intervals and steps of up to a quarter of
-    // the range (a large step over a small interval would mean 10^9 callbacks)
-    bool bigiv = r.chance(35);
-    std::vector<i64> ivs = {1, 2, 3, 5, 7, 10, 100};
-    std::vector<i64> steps = {0, 1, 1, 2, 3, 7, 7, 50, 1000};
-    if (bigiv)
-    {
-        ivs = {P30 - 1, P30 / 2 + 12345, P30 / 4, P30 / 4 + 1, 300000000};
-        steps = {0, 1, 7, 1000, P30 / 4, P30 / 2, P30 - 3, P30, 300000000};
-    }
-    i64 now = r.pick(bases) + r.range(0, 30);
-    i64 lo = now; // time of the previous exec (or of the creation)
-    std::vector<i64> lastfin(n, now);
-    int len = (int)r.range(4, 24);
-    for (int q = 0; q < len; q++)
-    {
-        unsigned c = (unsigned)r.below(100);
-        if (c < 36 || q < 2)
-        {
-            int i = (int)r.below(n);
-            i64 iv = r.pick(ivs);
-            // the clock may have advanced a little since the previous exec
-            if (r.chance(30)) now += (i64)r.below(4);
-            i64 st;
-            unsigned m = (unsigned)r.below(100);
-            if (m < 45) st = now - (i64)r.below(std::min<i64>(iv, 4));
-            else if (m < 70) st = lastfin[r.below(n)] - iv; // same deadline as another timer
-            else st = now;
-            if (st > now) st = now;
-            if (st + iv < lo) st = lo - iv + (i64)r.below(3);
-            if (st > now) st = now;
-            lastfin[i] = st + iv;
-            emit(std::string(r.chance(12) ? "plan1 " : "plan ") + S(i) + " " + S(st) + " " + S(iv));
-        }
-        else if (c < 46) emit("unplan " + S(r.below(n)));
-        else if (c < 94)
-        {
-            i64 step = r.pick(steps);
-            if (now + step - lo > P30) step = 0;
-            now += step;
-            lo = now;
-            emit("exec " + S(now) + " " + gen_rules_wrap(r, n, now, ivs));
-        }
-        else emit("q " + S(now));
-    }
-}
-
-// histories OUTSIDE the precondition (model comparison only): gaps / intervals of half the range and more,
-// starts in the future.  Intervals are never 0 modulo 2^32 and a timer whose start lies in the future gets a
-// large interval (an unsigned `check` sees a future start as "almost 2^32 ticks ago": it fires at once and
-// keeps firing until start has caught up).
-static void gen_wrap_outside_case_m(hv::rng &r, const std::string &mode);
-static void gen_wrap_outside_case(hv::rng &r) { gen_wrap_outside_case_m(r, "U"); }
-static void gen_wrap_outside_case_m(hv::rng &r, const std::string &mode)
-{
-    int n = (int)r.range(1, 4);
-    emit("reset " + mode + " " + S(n));
-    bool small = r.chance(20);
-    std::vector<i64> ivs = {P31 - 1, P31, P31 + 1, P32 - 1, P30, 3 * P30, P32 + P30 + 5, P32 - 2};
-    if (small) ivs = {7, 100, P32 + 5, P32 - 1, P31};
-    std::vector<i64> steps = {0, 1, 7, P31 - 2, P31, P31 + 7, P32 - 1, P32, P32 + 3, P30};
-    i64 now = r.pick(std::vector<i64>{0, P32 - 40, P31 - 5, 5 * P32 - 3}) + r.range(0, 9);
-    int len = (int)r.range(3, 14);
-    for (int q = 0; q < len; q++)
-    {
-        unsigned c = (unsigned)r.below(100);
-        if (c < 45 || q < 2)
-        {
-            i64 iv = r.pick(ivs);
-            i64 st = now - (i64)r.below(5);
-            if (r.chance(25)) { st = now + 1 + (i64)r.below(50); if (iv % P32 < P30) iv = P30 + (i64)r.below(1000); }
-            // a signed instance reads an interval >= 2^31 as negative: always due, exec would never return
-            if ((mode == "I" || mode == "V") && (iv % P32 >= P31 || iv % P32 == 0)) iv = P30 + iv % P30;
-            emit("plan " + S(r.below(n)) + " " + S(st) + " " + S(iv));
-        }
-        else if (c < 52) emit("unplan " + S(r.below(n)));
-        else
-        {
-            // (a small interval with a step of half the range would mean 10^8 callbacks: small intervals are
-            // only planned in cases whose steps are small)
-            now += small ? r.pick(std::vector<i64>{0, 1, 7, 300}) : r.pick(steps);
-            emit("exec " + S(now) + " -");
-        }
-    }
-}
-
-// the two-timer witness scenarios of the Lean theorems as cases of the stream
-static void gen_wrap_outside_directed()
-{
-    // gap < 2^31 and interval < 2^31 is NOT enough: 2^31 - 2 after the last exec a timer with interval
-    // 2^31 - 1 is planned while timer 0 is overdue; the signed difference of the deadlines wraps
-    emit("reset U 2");
-    emit("plan 0 0 5");
-    emit("plan 1 2147483646 2147483647");
-    emit("q 2147483646");
-    // a start in the future is read as a start almost 2^32 ticks ago: fires at once
-    emit("reset U 1");
-    emit("plan 0 110 1073741824");
-    emit("exec 100 -");
-}
-
-// setters, plan(tim), destruction, nested exec; int64 manager
-// hasiv[j]: timer j is known to hold a positive interval (plan(tim) of a timer with interval 0 - a fresh or a
-// destroyed one - would make exec spin forever: outside "positive intervals")
-static std::string gen_rules_ext(hv::rng &r, int n, i64 now, const std::vector<i64> &ivs, bool &nested, std::vector<bool> &hasiv)
-{
-    std::vector<bool> destroyed(n, false);
-    bool later = false; // a nested exec with a LATER time is in the rules: no rule may then repeat for every callback
-                        // (a plan "after now" repeated by every callback can lie before the nested time: endless loop)
-    std::string s;
-    int nr = (int)r.range(1, 3);
-    for (int q = 0; q < nr; q++)
-    {
-        int id = (int)r.below(n);
-        int k = (int)r.below(4);
-        bool anyk = r.chance(40);
-        std::string acts;
-        unsigned m = (unsigned)r.below(100);
-        int j = (int)r.below(n);
-        if (n > 1 && j == id && r.chance(50)) j = (j + 1) % n;
-        i64 iv = r.pick(ivs);
-        if (later) anyk = false;
-        if (m < 46) anyk = false; // a setter / plan(tim) repeated by EVERY callback can pin a deadline in the past: exec would never return
-        if (m < 14) acts = "s" + S(j) + "." + S(now - (i64)r.below(5));
-        else if (m < 26) acts = "i" + S(j) + "." + S(iv);
-        else if (m < 38) acts = "u" + S(j) + ",s" + S(j) + "." + S(now - (i64)r.below(3)) + ",i" + S(j) + "." + S(iv) + ",r" + S(j); // the legal way
-        else if (m < 46) acts = (hasiv[j] && !destroyed[j]) ? "r" + S(j) : "u" + S(j);
-        else if (m < 62)
-        {
-            if (j == id) j = (j + 1) % n;
-            if (j == id) acts = "u" + S(id);
-            else if (nested) acts = "u" + S(j); // (a nested callback could be destroying the outer callback's timer)
-            else
-            {
-                // destroy ANOTHER timer (pending or not, possibly the next one); no plan(tim) of it in this exec
-                acts = "d" + S(j);
-                destroyed[j] = true;
-                size_t pos;
-                while ((pos = s.find("r" + S(j))) != std::string::npos) s[pos] = 'u';
-            }
-        }
-        else if (m < 82 && !nested && s.find(":d") == std::string::npos)
-        {
-            // nested exec after the callback took its own timer out of the way (unplanned, or re-planned into the future)
-            nested = true;
-            anyk = false;
-            i64 now2 = now + (r.chance(50) ? 0 : (i64)r.below(9)) - (r.chance(15) ? 3 : 0);
-            if (now2 > now)
-            {
-                if (s.find("@*") != std::string::npos) now2 = now;
-                else later = true;
-            }
-            if (r.chance(50)) acts = "u" + S(id) + ",x" + S(now2);
-            else acts = "p" + S(id) + "." + S(std::max(now, now2)) + "." + S(iv) + ",x" + S(now2);
-        }
-        else acts = "p" + S(j) + "." + S(now - (i64)r.below(std::min<i64>(iv, 3))) + "." + S(iv);
-        if (!s.empty()) s += ";";
-        s += S(id) + "@" + (anyk ? std::string("*") : S(k)) + ":" + acts;
-    }
-    for (int j = 0; j < n; j++)
-        if (destroyed[j]) hasiv[j] = false;
-    return s;
-}
-
-static void gen_ext_case(hv::rng &r)
-{
-    int n = (int)r.range(2, 5);
-    emit("reset " + S(n));
-    std::vector<i64> ivs = {1, 2, 3, 5, 7, 10};
-    std::vector<i64> steps = {0, 1, 1, 2, 3, 7, 20};
-    i64 now = r.chance(50) ? 0 : 1000;
-    int len = (int)r.range(5, 24);
-    std::vector<bool> hasiv(n, false);
-    for (int q = 0; q < len; q++)
-    {
-        unsigned c = (unsigned)r.below(100);
-        int i = (int)r.below(n);
-        if (c < 25 || q < 2) { emit("plan " + S(i) + " " + S(now - (i64)r.below(3)) + " " + S(r.pick(ivs))); hasiv[i] = true; }
-        else if (c < 31) emit("unplan " + S(i));
-        else if (c < 38) emit("sets " + S(i) + " " + S(now + r.range(-4, 2)));
-        else if (c < 44) { emit("seti " + S(i) + " " + S(r.pick(ivs))); hasiv[i] = true; }
-        else if (c < 52) emit((hasiv[i] ? "replan " : "unplan ") + S(i));
-        else if (c < 57) { emit("destroy " + S(i)); hasiv[i] = false; }
-        else if (c < 60) emit("dropmgr");
-        else if (c < 95)
-        {
-            now += r.pick(steps);
-            bool nested = false;
-            emit("exec " + S(now) + " " + (r.chance(30) ? std::string("-") : gen_rules_ext(r, n, now, ivs, nested, hasiv)));
-        }
-        else emit("q " + S(now));
-    }
-}
-
-static void gen_ext_directed()
-{
-    // set_start / set_interval on a planned timer: the list is no longer sorted, a due timer waits behind a later one
-    emit("reset 3");
-    emit("plan 0 0 5");
-    emit("plan 1 0 7");
-    emit("sets 0 10");         // timer 0 now has deadline 15 but is still in front
-    emit("exec 8 -");          // timer 1 (deadline 7) is due and does not run
-    emit("replan 0");          // plan(tim) puts it where it belongs
-    emit("exec 8 -");
-    emit("seti 1 1");
-    emit("exec 30 -");
-    // the legal sequence: unplan, set, set, plan(tim)
-    emit("reset 2");
-    emit("plan 0 0 5");
-    emit("plan 1 0 6");
-    emit("unplan 0");
-    emit("sets 0 3");
-    emit("seti 0 2");
-    emit("replan 0");
-    emit("exec 5 -");
-    emit("exec 6 1@*:u0,s0.6,i0.1,r0");
-    emit("exec 9 -");
-    // destroying timers from callbacks: an unplanned one, a pending one, the NEXT one in the list
-    emit("reset 4");
-    emit("plan 0 0 5");
-    emit("plan 1 0 5");
-    emit("plan 2 0 6");
-    emit("exec 5 0@0:d1");     // timer 1 is the next in the list when timer 0's callback destroys it
-    emit("exec 6 2@*:d3");     // an unplanned one
-    emit("plan 3 6 4");
-    emit("exec 10 0@*:d3,d2"); // two pending ones
-    emit("destroy 0");
-    emit("exec 20 -");
-    // destroying the manager with planned timers, and again when it is empty
-    emit("reset 3");
-    emit("plan 0 0 5");
-    emit("plan 1 0 6");
-    emit("dropmgr");
-    emit("exec 10 -");
-    emit("plan 1 10 1");
-    emit("exec 11 -");
-    emit("dropmgr");
-    emit("dropmgr");
-    emit("q 11");
-    // nested exec from a callback that has unplanned / re-planned its own timer
-    emit("reset 3");
-    emit("plan 0 0 5");
-    emit("plan 1 0 5");
-    emit("plan 2 0 8");
-    emit("exec 5 0@0:u0,x5");
-    emit("exec 8 2@0:p2.8.8,x9;1@*:p0.8.1");
-    emit("exec 20 1@0:p1.20.5,x3");   // nested exec with an EARLIER time: nothing is due for it
-    emit("exec 30 -");
-    // planning from a callback with deadlines before / at / after now; minimal_interval after each
-    emit("reset 3");
-    emit("plan 0 0 5");
-    emit("exec 5 0@0:p1.0.3");   // before now: runs in this exec
-    emit("exec 10 0@0:p2.5.5");  // at now: runs in this exec
-    emit("exec 15 0@0:p1.15.1"); // after now
-    emit("exec 16 -");
-    // recorded findings (each probe ends its case)
-    emit("reset 2");
-    emit("plan 0 0 5");
-    emit("plan 1 0 6");
-    emit("@F:C16-nested-exec-refires exec 5 0@0:x5");
-    emit("reset 2");
-    emit("plan 0 0 5");
-    emit("plan 1 0 5");
-    emit("@F:C16-destroy-self-in-callback exec 5 0@0:d0");
-}
-
-static void gen_unarmed_case(hv::rng &r)
-{
-    int n = (int)r.range(2, 4);
-    emit("reset z " + S(n));
-    std::vector<i64> ivs = {1, 2, 3, 5, 7};
-    i64 now = 0;
-    int len = (int)r.range(4, 14);
-    for (int q = 0; q < len; q++)
-    {
-        unsigned c = (unsigned)r.below(100);
-        int i = (q == 0) ? n - 1 : (int)r.below(n);
-        if (c < 40 || q < 2) emit("plan " + S(i) + " " + S(now - (i64)r.below(2)) + " " + S(r.pick(ivs)));
-        else if (c < 48) emit("unplan " + S(i));
-        else
-        {
-            now += r.pick(std::vector<i64>{0, 1, 2, 5, 12});
-            std::string rules = "-";
-            if (r.chance(40))
-            {
-                int j = (int)r.below(n);
-                rules = (r.chance(50) ? std::string("*") : S(r.below(n))) + "@*:" + (r.chance(50) ? "u" + S(j) : "p" + S(j) + "." + S(now) + "." + S(r.pick(ivs)));
-            }
-            emit("exec " + S(now) + " " + rules);
-        }
-    }
-}
-
-// stimer with the tick counter running through LONG_MAX (and through 2^64)
-static std::string BIG(__int128 v)
-{
-    if (v == 0) return "0";
-    bool neg = v < 0;
-    if (neg) v = -v;
-    std::string s;
-    while (v > 0) { s.insert(s.begin(), (char)('0' + (int)(v % 10))); v /= 10; }
-    return neg ? "-" + s : s;
-}
-static void gen_stimer_wide_directed()
-{
-    emit("reset S");
-    emit("splan 9223372036854775802 10");  // start LONG_MAX - 5, deadline beyond LONG_MAX
-    emit("scheck 9223372036854775806");
-    emit("sfinish");
-    emit("scheck 9223372036854775811");
-    emit("scheck 9223372036854775812");
-    emit("speriodic 9223372036854775813");
-    emit("speriodic 9223372036854775813");
-    emit("speriodic 9223372036854775840");
-    emit("speriodic 9223372036854775840");
-    emit("sswift");
-    emit("sfinish");
-}
-static void gen_stimer_wide(hv::rng &r, int cases)
-{
-    const __int128 P63 = (__int128)1 << 63, P64 = (__int128)1 << 64;
-    for (int c = 0; c < cases; c++)
-    {
-        emit("reset S");
-        __int128 base = r.pick(std::vector<__int128>{P63 - 20, P63 - 1000, P64 - 15, P64 + P63 - 9, 0, 3 * P64 - 100});
-        __int128 now = base + (i64)r.below(20);
-        __int128 st = 0, ivl = 0;
-        int len = (int)r.range(4, 16);
-        for (int q = 0; q < len; q++)
-        {
-            unsigned m = (unsigned)r.below(100);
-            i64 iv = r.pick(std::vector<i64>{1, 2, 3, 7, 10, 25, 100, 1000000, 4611686018427387000LL});
-            if (m < 18 || q == 0) { st = now - (i64)r.below(4); ivl = iv; emit("splan " + BIG(st) + " " + S(iv)); }
-            else if (m < 22) { st = now - (i64)r.below(4); ivl = iv; emit("sinit " + BIG(st) + " " + S(iv)); }
-            else if (m < 28) { st = now - (i64)r.below(4); emit("sstart " + BIG(st)); }
-            else if (m < 33) { st += ivl; emit("sswift"); }
-            else if (m < 40) emit("sfinish");
-            else
-            {
-                __int128 t = now + (i64)r.range(0, 4) * (r.chance(20) ? 9 : 1);
-                if (r.chance(50) && st + ivl + 1 >= now) t = std::max(now, st + ivl + (i64)r.range(-1, 1));
-                // stay inside the window: the start is at most 2^62 behind
-                if (t - st > ((__int128)1 << 62)) t = now;
-                now = t;
-                if (m < 65) emit("scheck " + BIG(now));
-                else { emit("speriodic " + BIG(now)); if (now >= st + ivl) st += ivl; }
-            }
-        }
-    }
-}
-
-
-// ---------------------------------------------------------------------------
-// round 3: stimer on raw `long` values (reset T) - every combination of
-//   interval {0, 1, 2, 250, LONG_MAX-1, LONG_MAX, LONG_MIN, -1} x start {0, 5250, near 2^63, near 2^64 (= -1 as long)}
-//   x curtime {start-250, start-2, start-1, start, start+1, deadline-1, deadline, deadline+1, half the range away, ...}
-// all computed modulo 2^64.  A start point AHEAD of the clock with a huge "never" interval is the shape the
-// seeded change C16-stimer-check-via-finish needs.
-// ---------------------------------------------------------------------------
-static long wadd(long a, long b) { return (long)((unsigned long)a + (unsigned long)b); }
-static void gen_stimer_long(hv::rng &r, bool th)
-{
-    static const std::vector<long> ivs = {0, 1, 2, 250, LONG_MAX - 1, LONG_MAX, LONG_MIN, -1, LONG_MIN + 1, 1000};
-    static const std::vector<long> starts = {0, 5250, LONG_MAX - 3, LONG_MAX, LONG_MIN, LONG_MIN + 5, -1, -3, -250};
-    static const std::vector<long> offs = {-250, -2, -1, 0, 1, 2, 250, LONG_MAX, LONG_MIN, LONG_MAX - 1, LONG_MIN + 1};
-    // the parked flag timer of the seeded change, first
-    emit("reset T");
-    emit("splan 5250 " + S(LONG_MAX));
-    emit("scheck 5000");
-    emit("scheck 5248");
-    emit("scheck 5249");
-    emit("scheck 5250");
-    emit("speriodic 5000");
-    emit("sfinish");
-    for (long iv : ivs)
-        for (long st : starts)
-        {
-            emit("reset T");
-            emit("splan " + S(st) + " " + S(iv));
-            emit("sfinish");
-            long dl = wadd(st, iv);
-            for (long o : offs) emit("scheck " + S(wadd(st, o)));
-            for (long o : {-1L, 0L, 1L}) emit("scheck " + S(wadd(dl, o)));
-            // one object, parameters changed between the calls
-            emit("speriodic " + S(wadd(st, -2)));
-            emit("speriodic " + S(wadd(dl, -1)));
-            emit("speriodic " + S(dl));
-            emit("speriodic " + S(dl));
-            emit("speriodic " + S(wadd(dl, iv)));
-            emit("sstart " + S(wadd(st, 7)));
-            emit("scheck " + S(wadd(st, 6)));
-            emit("scheck " + S(wadd(wadd(st, 7), iv)));
-            emit("sswift");
-            emit("sfinish");
-            emit("sinit " + S(st) + " " + S(iv));
-            emit("scheck " + S(dl));
-        }
-    int cases = th ? 4000 : 300;
-    for (int c = 0; c < cases; c++)
-    {
-        emit("reset T");
-        long st = wadd(r.pick(starts), r.range(-5, 5));
-        long iv = r.chance(50) ? r.pick(ivs) : (long)r.range(1, 40);
-        emit("splan " + S(st) + " " + S(iv));
-        int len = (int)r.range(3, 10);
-        long now = wadd(st, r.range(-260, 5));
-        for (int q = 0; q < len; q++)
-        {
-            unsigned m = (unsigned)r.below(100);
-            if (m < 10) { st = wadd(now, r.range(-3, 260)); iv = r.chance(50) ? r.pick(ivs) : (long)r.range(1, 40); emit("splan " + S(st) + " " + S(iv)); }
-            else if (m < 16) { st = wadd(now, r.range(-3, 3)); emit("sstart " + S(st)); }
-            else if (m < 22) { st = wadd(st, iv); emit("sswift"); }
-            else if (m < 28) emit("sfinish");
-            else
-            {
-                now = r.chance(40) ? wadd(wadd(st, iv), r.range(-1, 1)) : wadd(now, r.range(0, 300));
-                if (m < 60) emit("scheck " + S(now));
-                else emit("speriodic " + S(now));
-            }
-        }
-    }
-}
-
-// ---------------------------------------------------------------------------
-// round 3: timer_spec<int32_t> (signed 32-bit ticks: the counter wraps after 2^31 ticks) and the shipped
-// timer_spec<int64_t> run across the wrap of its 64-bit counter (reset l <n> <off>: every tick value of the op
-// lines is moved by <off> modulo 2^64 before the code sees it; the reference scheduler keeps the small values)
-// ---------------------------------------------------------------------------
-static void gen_signed_directed()
-{
-    // 10 ticks before the wrap of int32_t: deadlines before / after / exactly at 2^31, periodic through it
-    emit("reset i 3");
-    emit("plan 0 2147483638 5");    // deadline 2^31 - 5
-    emit("plan 1 2147483638 20");   // deadline 2^31 + 10
-    emit("plan 2 2147483638 10");   // deadline 2^31 exactly
-    emit("exec 2147483642 -");
-    emit("exec 2147483644 -");
-    emit("exec 2147483647 -");
-    emit("exec 2147483648 -");
-    emit("exec 2147483650 0@*:p1.2147483650.3");
-    emit("exec 2147483700 -");
-    emit("q 2147483700");
-    // the bit pattern passes 0 (2^32) and the sign bit again (3 * 2^31)
-    emit("reset i 2");
-    emit("plan 0 4294967286 4");
-    emit("plan 1 4294967286 25");
-    emit("exec 4294967295 -");
-    emit("exec 4294967296 -");
-    emit("exec 4294967330 1@0:u0");
-    emit("reset i 2");
-    emit("plan 0 6442450934 7");
-    emit("exec 6442450950 -");
-    emit("plan 1 6442450950 1000");
-    emit("exec 6442452000 -");
-    // int64_t: 10 ticks before 2^63 and 10 ticks before 2^64
-    emit("reset l 3 9223372036854775798");
-    emit("plan 0 0 5");
-    emit("plan 1 0 20");
-    emit("plan 2 0 10");
-    emit("exec 4 -");
-    emit("exec 6 -");
-    emit("exec 9 -");
-    emit("exec 10 -");
-    emit("exec 12 0@*:p1.12.3");
-    emit("exec 62 -");
-    emit("q 62");
-    emit("reset l 2 18446744073709551606");
-    emit("plan 0 0 4");
-    emit("plan 1 0 25");
-    emit("exec 9 -");
-    emit("exec 10 -");
-    emit("exec 44 1@0:u0");
-    // a start in the FUTURE on a signed instance is not due (the unsigned instance fires at once)
-    emit("reset I 1");
-    emit("plan 0 110 1073741824");
-    emit("exec 100 -");
-    emit("exec 1073741933 -");
-    emit("exec 1073741934 -");
-}
-static void gen_signed(hv::rng &r, bool th)
-{
-    gen_signed_directed();
-    static const std::vector<i64> b32 = {P31 - 10, P31 - 10, P31 - 40, P31 - 1000, P32 + P31 - 25, P32 - 10, 3 * P32 + P31 - 12, P31 - P30, 0};
-    static const std::vector<i64> b64 = {0, 0, 3, 1000};
-    static const std::vector<std::string> offs = {" 9223372036854775798", " 9223372036854775798", " 9223372036854775000", " 18446744073709551606",
-                                                  " 9223372036853775808", " 0", " 4611686018427387904"};
-    for (int c = 0; c < (th ? 8000 : 350); c++) gen_wrap_case_m(r, "i", "", b32);
-    for (int c = 0; c < (th ? 1000 : 60); c++) gen_wrap_outside_case_m(r, "I");
-    // timer_spec<uint32_t, int32_t>
-    emit("reset v 2");
-    emit("plan 0 4294967286 4");
-    emit("plan 1 4294967286 25");
-    emit("exec 4294967295 -");
-    emit("exec 4294967296 -");
-    emit("exec 4294967330 1@0:u0");
-    emit("reset V 1");
-    emit("plan 0 110 1073741824"); // start in the future: the signed difference says "not due"
-    emit("exec 100 -");
-    emit("exec 1073741934 -");
-    {
-        static const std::vector<i64> bu = {P32 - 10, P32 - 40, P31 - 10, 3 * P32 - 25, 0};
-        for (int c = 0; c < (th ? 4000 : 150); c++) gen_wrap_case_m(r, "v", "", bu);
-        for (int c = 0; c < (th ? 600 : 40); c++) gen_wrap_outside_case_m(r, "V");
-    }
-    for (int c = 0; c < (th ? 6000 : 300); c++) gen_wrap_case_m(r, "l", r.pick(offs), b64);
-}
-
-// ---------------------------------------------------------------------------
-// round 3: exec() called from callbacks without any precaution (any callback, any time: earlier, the same, later;
-// the calling timer still planned and due) mixed with plan / unplan of itself and of others - a re-entrant exec
-// returns at once (fix-C16), so the history behaves as if those calls were not there
-// ---------------------------------------------------------------------------
-static void gen_nested_directed()
-{
-    emit("reset 2");
-    emit("plan 0 0 5");
-    emit("plan 1 0 6");
-    emit("exec 5 0@0:x5");          // the former finding probe: own timer still at the head
-    emit("exec 6 *@*:x100");        // every callback calls exec with a far later time
-    emit("exec 30 0@*:x30,p1.30.2,x31;1@*:u0,x29");
-    emit("exec 40 -");
-    emit("qmin 40");
-    emit("reset 1");
-    emit("qmin 5");                 // the former finding probe: empty manager
-    emit("plan 0 1 1");
-    emit("qmin 1");
-    emit("unplan 0");
-    emit("qmin 0");
-}
-static void gen_nested_case(hv::rng &r)
-{
-    int n = (int)r.range(1, 4);
-    emit("reset " + S(n));
-    std::vector<i64> ivs = {1, 2, 3, 5, 7};
-    i64 now = r.chance(50) ? 0 : 500;
-    int len = (int)r.range(4, 16);
-    for (int q = 0; q < len; q++)
-    {
-        unsigned c = (unsigned)r.below(100);
-        int i = (int)r.below(n);
-        if (c < 30 || q < 2) emit("plan " + S(i) + " " + S(now - (i64)r.below(3)) + " " + S(r.pick(ivs)));
-        else if (c < 38) emit("unplan " + S(i));
-        else if (c < 44) emit("qmin " + S(now));
-        else
-        {
-            now += r.pick(std::vector<i64>{0, 1, 2, 5, 12, 40});
-            std::string rules;
-            int nr = (int)r.range(1, 3);
-            for (int k = 0; k < nr; k++)
-            {
-                std::string sel = (r.chance(40) ? std::string("*") : S(r.below(n))) + "@" + (r.chance(60) ? std::string("*") : S(r.below(3)));
-                std::string acts;
-                int na = (int)r.range(1, 3);
-                for (int a = 0; a < na; a++)
-                {
-                    if (!acts.empty()) acts += ",";
-                    unsigned m = (unsigned)r.below(100);
-                    int j = (int)r.below(n);
-                    if (m < 50) acts += "x" + S(now + r.pick(std::vector<i64>{-3, 0, 0, 1, 7, 1000}));
-                    else if (m < 70) acts += "u" + S(j);
-                    else acts += "p" + S(j) + "." + S(now - (i64)r.below(2)) + "." + S(r.pick(ivs) + 1); // deadline after now
-                }
-                if (!rules.empty()) rules += ";";
-                rules += sel + ":" + acts;
-            }
-            emit("exec " + S(now) + " " + rules);
-        }
-    }
-}
-
-// ---------------------------------------------------------------------------
-// round 3: 3 timers, EVERY sequence of four callback actions (the k-th callback of the exec, k = 0..3, whichever
-// timer it belongs to, performs one of: nothing | unplan j | plan j with a deadline after now | plan j with a
-// deadline at / before now (j runs again in this exec), j in {0,1,2}: 10^4 sequences) over two configurations
-// (three EQUAL deadlines; staggered deadlines), followed by an exec with the time going BACKWARDS, an exec at the
-// same time, and an exec that jumps many periods ahead.  thorough: all 20000; quick: a random tenth.
-// ---------------------------------------------------------------------------
-static void gen_exhaustive3(hv::rng &r, bool th)
-{
-    const i64 now = 6;
-    auto actstr = [&](int a, int k) -> std::string {
-        if (a == 0) return "";
-        int j = (a - 1) / 3, kind = (a - 1) % 3;
-        std::string sel = "*@" + S(k) + ":";
-        if (kind == 0) return sel + "u" + S(j);
-        if (kind == 1) return sel + "p" + S(j) + "." + S(now - 1) + "." + S(2 + j); // deadline now+1+j
-        return sel + "p" + S(j) + "." + S(now - 3 - k) + ".3";                         // deadline now-k: at or before now
-    };
-    for (int cfg = 0; cfg < 2; cfg++)
-        for (int code = 0; code < 10000; code++)
-        {
-            if (!th && !r.chance(4)) continue;
-            int a[4] = {code % 10, code / 10 % 10, code / 100 % 10, code / 1000};
-            emit("reset 3");
-            if (cfg == 0) { emit("plan 0 0 4"); emit("plan 1 1 3"); emit("plan 2 2 2"); }   // three deadlines 4 (FIFO 0,1,2)
-            else { emit("plan 2 0 3"); emit("plan 0 1 4"); emit("plan 1 0 6"); }            // deadlines 3, 5, 6
-            std::string rules;
-            for (int k = 0; k < 4; k++)
-            {
-                std::string x = actstr(a[k], k);
-                if (x.empty()) continue;
-                if (!rules.empty()) rules += ";";
-                rules += x;
-            }
-            if (rules.empty()) rules = "-";
-            emit("exec " + S(now) + " " + rules);
-            emit("exec " + S(now - 2) + " " + rules); // time goes backwards: nothing may run
-            emit("exec " + S(now) + " -");
-            emit("exec " + S(now + 100) + " -");      // many periods missed: one firing per period, no drift
-        }
-}
-
-static void gen_delegate(hv::rng &r, bool th)
-{
-    // every kind once, invoked, copied, compared, reset, inside a timer
-    emit("reset D");
-    emit("dinv 0 5");
-    emit("dnew 0 f 1"); emit("dinv 0 7");
-    emit("dnew 1 m 2 1"); emit("dinv 1 -3");
-    emit("dnew 2 m 3 3"); emit("dinv 2 9");
-    emit("dnew 3 x 2 1"); emit("dinv 3 11");
-    emit("deq 0 1"); emit("dcopy 0 1"); emit("deq 0 1"); emit("dinv 0 4");
-    emit("dnew 1 x 1 0"); emit("dinv 1 2");
-    emit("dnew 2 l 1"); emit("dinv 2 13"); emit("dtim 2 6 3");
-    emit("dreset 2 8"); emit("dinv 2 8"); emit("dreset 2 8");
-    emit("dtim 0 21 4"); emit("dtim 3 22 2"); emit("dtim 2 23 2");
-    emit("dmove 3 1"); emit("dinv 3 1"); emit("dclean 3"); emit("dinv 3 1");
-    for (int c = 0; c < (th ? 3000 : 250); c++)
-    {
-        emit("reset D");
-        int len = (int)r.range(4, 18);
-        for (int q = 0; q < len; q++)
-        {
-            unsigned m = (unsigned)r.below(100);
-            if (q < 3) m = (unsigned)r.below(30); // the first operations arm slots
-            int a = q < 3 ? q : (int)r.below(4), b = (int)r.below(4);
-            int arg = (int)r.pick(std::vector<i64>{0, 1, -1, 7, 2147483647, -2147483647 - 1, 1000});
-            if (m < 30)
-            {
-                unsigned k = (unsigned)r.below(100);
-                if (k < 10) emit("dnew " + S(a) + " 0");
-                else if (k < 35) emit("dnew " + S(a) + " f " + S(r.range(1, 3)));
-                else if (k < 65) emit("dnew " + S(a) + " m " + S(r.range(1, 3)) + " " + S(r.range(1, 3)));
-                else if (k < 88) emit("dnew " + S(a) + " x " + S(r.range(1, 3)) + " " + S(r.range(0, 3)));
-                else emit("dnew " + S(a) + " l " + S(r.range(1, 2)));
-            }
-            else if (m < 42) emit(std::string(r.chance(60) ? "dcopy " : "dmove ") + S(a) + " " + S(b));
-            else if (m < 46) emit("dclean " + S(a));
-            else if (m < 72) emit("dinv " + S(a) + " " + S(arg));
-            else if (m < 80) emit("dreset " + S(a) + " " + S(arg));
-            else if (m < 90) emit("deq " + S(a) + " " + S(b));
-            else emit("dtim " + S(a) + " " + S(arg) + " " + S(r.range(0, 5)));
-        }
-    }
-}
-
-// ---------------------------------------------------------------------------
-// round 3: long inputs - one exec that catches up 28500 periods (a result line of 450 KB; exec is linear in the
-// number of firings), and long histories on ONE manager object (thousands of operations, parameters changing)
-// ---------------------------------------------------------------------------
-static void gen_long(hv::rng &r, bool th)
-{
-    emit("reset 2");
-    emit("plan 0 1000000000000 1");
-    emit("plan 1 1000000000000 2");
-    emit("exec 1000000019000 -");
-    emit("exec 1000000019001 1@*:x5");
-    emit("q 1000000019001");
-    for (int c = 0; c < (th ? 12 : 2); c++)
-    {
-        int n = 6;
-        emit("reset " + S(n));
-        i64 now = 0;
-        std::vector<i64> ivs = {1, 2, 3, 5, 7, 10, 100, 255, 256, 257, 65535, 65536};
-        int len = th ? 4000 : 1500;
-        for (int q = 0; q < len; q++)
-        {
-            unsigned m = (unsigned)r.below(100);
-            int i = (int)r.below(n);
-            if (m < 35) emit("plan " + S(i) + " " + S(now - (i64)r.below(4)) + " " + S(r.pick(ivs)));
-            else if (m < 45) emit("unplan " + S(i));
-            else if (m < 50) emit("qmin " + S(now));
-            else
-            {
-                now += r.pick(std::vector<i64>{0, 1, 1, 2, 3, 7, 50, 255, 256, 257, 1000});
-                emit("exec " + S(now) + " " + gen_rules(r, n, now, std::vector<i64>{1, 2, 3, 5, 7, 10, 100, 256}));
-            }
-        }
-    }
-}
-
-static void gen_extensions(hv::rng &r, bool th)
-{
-    gen_wrap_directed();
-    gen_wrap_outside_directed();
-    gen_ext_directed();
-    gen_stimer_wide_directed();
-    for (int c = 0; c < (th ? 12000 : 1500); c++) gen_wrap_case(r);
-    for (int c = 0; c < (th ? 2000 : 300); c++) gen_wrap_outside_case(r);
-    for (int c = 0; c < (th ? 12000 : 1500); c++) gen_ext_case(r);
-    for (int c = 0; c < (th ? 1500 : 200); c++) gen_unarmed_case(r);
-    gen_stimer_wide(r, th ? 3000 : 400);
-    gen_stimer_long(r, th);
-    gen_signed(r, th);
-    gen_delegate(r, th);
-    gen_long(r, th);
-    gen_nested_directed();
-    gen_exhaustive3(r, th);
-    for (int c = 0; c < (th ? 6000 : 400); c++) gen_nested_case(r);
-}
-
-static void gen(hv::rng &r, const std::string &tier)
-{
-    bool th = tier == "thorough";
-    gen_directed();
-    gen_exhaustive_configs(r, th);
-    gen_exhaustive_callbacks(r, th);
-    int nrand = th ? 30000 : 5000;
-    for (int c = 0; c < nrand; c++) gen_random_case(r, c % 3 != 0);
-    gen_stimer(r, th ? 5000 : 1000);
-    gen_extensions(r, th);
-}
+// the generator is in harness/C16_gen.cpp
+void c16_gen(hv::rng &r, const std::string &tier);
 
 int main(int argc, char **argv)
 {
-    int rc = hv::main_(argc, argv, gen, run_op);
+    int rc = hv::main_(argc, argv, c16_gen, run_op);
     drop_world();
     return rc;
 }
